@@ -172,7 +172,7 @@ pub mod proto {
         Release,
         /// one periodic-coordinator tick: (worker woken, shard count)
         Tick,
-        /// a worker drained its shards: (worker id, entries)
+        /// a worker visited one of its shards: (worker id, shard id), timestamp = entries drained
         WorkerFlush,
     }
 
